@@ -65,6 +65,12 @@ def gen_plan(S, index, tier):
     if S.coin(0.25):
         cfg['alphabet'] = S.pick(['KR', 'RK', 'KRA', 'DKD', 'KP', 'RRA'])   # repetitive: overlapping occurrences
         cfg['small_alpha'] = False
+    long_protein = S.coin(0.01)
+    if long_protein:
+        # beyond the stated bound (1..40), rarely: a protein-sized protein, digested with specific rules only
+        cfg['minlen'], cfg['maxlen'], cfg['density'] = 257, S.pick([300, 420]), 0.05
+        cfg['p']['intervals'] = 0.0
+        header['long'] = True
     sp = SP.gen_pep(S, cfg)
     fault_free = S.coin(0.25)
     faults = [] if fault_free else [f for f in ('interleave', 'abandon', 'poison', 'rng', 'scribble') if S.coin(0.55)]
@@ -82,6 +88,8 @@ def gen_plan(S, index, tier):
                 keep.append(iv)
         sp['intervals'] = keep
         semi_ok = all(iv[1] - iv[0] == 1 for iv in keep)
+    if long_protein:
+        semi_ok = False          # no quadratic generators on protein-sized input
     poisoned = None
     if 'poison' in faults and S.coin(0.3):
         sp, where, val = SP.poison(S, sp)
